@@ -26,6 +26,7 @@ from sktime.utils.validation.forecasting import check_cutoffs
 from sktime.utils.validation.forecasting import check_fh
 from sktime.utils.validation.forecasting import check_step_length
 from sktime.utils.validation.series import check_equal_time_index
+from sktime.utils.validation.series import check_series
 from sktime.utils.validation.series import check_time_index
 
 DEFAULT_STEP_LENGTH = 1
@@ -643,6 +644,8 @@ def temporal_train_test_split(y, X=None, test_size=None, train_size=None, fh=Non
 def _split_by_fh(y, fh, X=None):
     """Helper function to split time series with forecasting horizon handling both
     relative and absolute horizons"""
+    # the split is computed from the time index of `y`, so it has to be valid
+    y = check_series(y, allow_numpy=False)
     if X is not None:
         check_equal_time_index(y, X)
     fh = check_fh(fh)
